@@ -86,11 +86,6 @@ def cuts_of(n):
             yield [0] + list(cs) + [n]
 
 
-def decode(rows, vals_by_page_base, use_dict):
-    """element codes -> python values: code 2v(+1) = value v of the chunk's stream (page-relative index + base handled by caller)"""
-    return rows
-
-
 def native_pages(defs, reps, cuts, null, null_val, use_dict, nrows):
     max_defi = null + 1 + null_val
     assign = np.empty(nrows + 2, dtype=object)          # two spare slots: a store one row too far is visible, not a crash
@@ -193,7 +188,61 @@ def main():
     r = cencoding._assemble_objects(a, None, np.array([1], dtype=np.uint8), np.array([9], dtype=object), None, False, False, True, 2, 1)
     print("(c2) continuation-only page: rep=[1] def=None(max) max_defi=2 null=0 prev_i=1 assign[0]=[5], val=[9] ->", list(a), "ret", r,
           "| specification: [[5, 9], None, None] ret 0 (caller: row_idx = 1 + ret must stay 1)")
+    # (c3) the safety consequence: rows [[1, 2], [3]] (2 rows) stored as three pages of one entry each, driven as core.read_col does
+    a = np.empty(2 + 2, dtype=object)                    # 2 rows + 2 spare slots standing in for the memory after the array
+    row_idx = 0
+    for rep_, v in (([0], 1), ([1], 2), ([0], 3)):
+        row_idx = 1 + cencoding._assemble_objects(a, None, np.array(rep_, dtype=np.uint8), np.array([v], dtype=object), None, False, False, False, 1, row_idx)
+    print("(c3) [[1, 2], [3]] in pages [1] | [2] | [3], row group of 2 rows (+2 spare slots):", list(a), "row_idx", row_idx,
+          "| the third page stored at index 2 == len(rows): with boundscheck=False that is a write past the array")
+    files()
     return 1 if (bad or outside) else 0
+
+
+def files():
+    """(d) file-level replays of the refuted call-site / shape obligations (independent encoder spec.pqwrite -> fastparquet.to_pandas)"""
+    import io
+    import fastparquet
+    from fastparquet import parquet_thrift as pt, schema
+    from spec import pqwrite as W
+
+    def read(col, rows, name, pages, dictionary=None):
+        data = W.encode_file([col], [{name: rows}], {(0, name): W.ChunkLayout(pages=pages, dictionary=dictionary)})
+        try:
+            return list(fastparquet.ParquetFile(io.BytesIO(data)).to_pandas()[name])
+        except Exception as ex:
+            return f"{type(ex).__name__}: {str(ex)[:90]}"
+    m = lambda name: W.MapSpec(name, W.ColumnSpec('key', 'BYTE_ARRAY', converted='UTF8'), W.ColumnSpec('value', 'INT64', optional=True), optional=True)
+    rows = [[("a", 1), ("b", None)], None, [], [("c", 3)]]
+    for name in ("m", "key"):
+        print(f"(d1) map_zip: MAP column named {name!r}: {rows} ->", read(m(name), rows, name, [W.PageLayout(version=1, encoding='PLAIN')]))
+    lst = lambda outer_opt, typ='INT32': W.ListSpec('c', W.ColumnSpec('element', typ, optional=True), optional=outer_opt)
+    lrows = [[1, None], [], [7]]
+    print("(d2) v2 null=True hard-coded, REQUIRED outer list, dictionary values:", lrows, "->",
+          read(lst(False), lrows, 'c', [W.PageLayout(version=2, encoding='RLE_DICTIONARY')], 'auto'))
+    print("     same rows, OPTIONAL outer list:", "->", read(lst(True), lrows, 'c', [W.PageLayout(version=2, encoding='RLE_DICTIONARY')], 'auto'))
+    print("(d3) v2 page without nulls (defi unbound), OPTIONAL outer, dictionary values: [[1],[2,3]] ->",
+          read(W.ListSpec('c', W.ColumnSpec('element', 'INT32', optional=False), optional=False), [[1], [2, 3]], 'c',
+               [W.PageLayout(version=2, encoding='RLE_DICTIONARY')], 'auto'))
+    for enc, typ, rr in (("PLAIN", 'INT32', [[1, 2], [3]]), ("DELTA_BINARY_PACKED", 'INT32', [[1, 2], [3]]), ("RLE", 'BOOLEAN', [[True, False], [True]])):
+        try:
+            out = read(W.ListSpec('c', W.ColumnSpec('element', typ, optional=True), optional=True), rr, 'c', [W.PageLayout(version=2, encoding=enc)])
+        except Exception as ex:
+            out = f"(encoder) {type(ex).__name__}: {ex}"
+        print(f"(d4) v2 {enc} values, no record assembly on that branch: {rr} ->", out)
+
+    def se(name, rep=None, ct=None, nch=None, typ=None):
+        return pt.SchemaElement(name=name, repetition_type=rep, converted_type=ct, num_children=nch, type=typ)
+
+    class O:
+        pass
+    c = O(); c.meta_data = O(); c.meta_data.path_in_schema = ["a", "list", "element"]
+    h = schema.SchemaHelper([se("schema", nch=1), se("a", rep=2, ct=3, nch=1), se("list", rep=2, nch=1), se("element", rep=1, typ=1)])
+    print("(d5) shape: REPEATED group annotated LIST: _is_list_like ->", schema._is_list_like(h, c), "max_repetition_level ->",
+          h.max_repetition_level(c.meta_data.path_in_schema), "(the kernel handles one repetition level)")
+    c.meta_data.path_in_schema = ["m", "key_value", "key"]
+    h = schema.SchemaHelper([se("schema", nch=1), se("m", rep=2, ct=1, nch=1), se("key_value", rep=2, nch=2), se("key", rep=0, typ=1), se("value", rep=1, typ=1)])
+    print("     REPEATED group annotated MAP: _is_map_like ->", schema._is_map_like(h, c), "max_repetition_level ->", h.max_repetition_level(c.meta_data.path_in_schema))
 
 
 if __name__ == "__main__":
